@@ -147,6 +147,12 @@ func init() {
 							})
 							if msgLF == "" && !capF && msgF == "" {
 								m2 := Meta{Case: c, Stage: "check-c13-after-biases", Input: J{"request": q2}, Key: string(js2), GoOut: heurRankingJSON(&tr.Choice.Result)}
+								if pF.Function != "thresholds" {
+									// "successively lower aspiration levels": a generated series never becomes more demanding
+									mo := m2
+									mo.Stage, mo.GoOut = "levels-successively-lower-after-biases", lvF
+									o.Oracle(mo, c13SuccessivelyLower(dF.Criteria, lvF), "a generated aspiration level is more demanding than the level before it")
+								}
 								o.Spec(m2, L(A("check-c13"), altsSX(orderF), critsSX(dF.Criteria), heurLevelsSX(lvF), altsSX(dF.AllAlternatives()), satEntriesSX(&tr.Choice.Result)))
 								o.count("after-biases")
 							}
@@ -156,4 +162,22 @@ func init() {
 			}
 		}
 	}
+}
+
+// c13SuccessivelyLower: per criterion, the thresholds of consecutive levels never become more demanding
+// (gain: never higher; cost: never lower)
+func c13SuccessivelyLower(cs model.Criteria, levels []model.Weights) bool {
+	for i := 1; i < len(levels); i++ {
+		for _, c := range cs {
+			a, okA := levels[i-1][c.Id]
+			b, okB := levels[i][c.Id]
+			if !okA || !okB {
+				continue
+			}
+			if float64(c.Multiplier())*(b-a) > 0 {
+				return false
+			}
+		}
+	}
+	return true
 }
